@@ -23,6 +23,7 @@ import (
 type simNet struct {
 	mu      sync.Mutex
 	nodes   map[string]*simTransport // by "ip:port"
+	byName  map[string]string        // member name -> "ip:port" (name-routed runs)
 	r       *rng
 	loss    int // percent
 	dup     int // percent
@@ -40,7 +41,7 @@ type simNet struct {
 }
 
 func newSimNet(r *rng) *simNet {
-	return &simNet{nodes: map[string]*simTransport{}, r: r, blocked: map[[2]string]bool{}}
+	return &simNet{nodes: map[string]*simTransport{}, byName: map[string]string{}, r: r, blocked: map[[2]string]bool{}}
 }
 
 func (sn *simNet) latency() time.Duration {
@@ -90,6 +91,31 @@ func (sn *simNet) newTransport(ip string, port int) *simTransport {
 	sn.nodes[t.addr] = t
 	sn.mu.Unlock()
 	return t
+}
+
+// nameRouted makes a simTransport node-aware: what is addressed to (address, name) goes to the member
+// called name when one runs in the simulated network - as a transport that routes by node name does -
+// and to the address when no name is given.
+type nameRouted struct{ *simTransport }
+
+func (t nameRouted) resolve(a ml.Address) string {
+	if a.Name != "" {
+		t.net.mu.Lock()
+		addr, ok := t.net.byName[a.Name]
+		t.net.mu.Unlock()
+		if ok {
+			return addr
+		}
+	}
+	return a.Addr
+}
+
+func (t nameRouted) WriteToAddress(b []byte, a ml.Address) (time.Time, error) {
+	return t.WriteTo(b, t.resolve(a))
+}
+
+func (t nameRouted) DialAddressTimeout(a ml.Address, timeout time.Duration) (net.Conn, error) {
+	return t.DialTimeout(t.resolve(a), timeout)
 }
 
 func (t *simTransport) FinalAdvertiseAddr(ip string, port int) (net.IP, int, error) {
@@ -363,6 +389,8 @@ type simCfg struct {
 	writerOnSend bool
 	// names of different lengths (n0, n1x, n2xx, ... from a per-cluster offset): packet sizes depend on them
 	padNames int
+	// the transport is node-aware and routes by the name in the address it is given
+	routeByName bool
 }
 
 func defaultSimCfg() simCfg {
@@ -385,6 +413,12 @@ func (sn *simNet) newNamedNode(i int, name string, c simCfg, t0 time.Time) (*sim
 	conf := ml.DefaultLANConfig()
 	conf.Name = name
 	conf.Transport = tr
+	if c.routeByName {
+		sn.mu.Lock()
+		sn.byName[name] = tr.addr
+		sn.mu.Unlock()
+		conf.Transport = nameRouted{tr}
+	}
 	conf.BindPort = 7946
 	conf.AdvertisePort = 7946
 	conf.ProbeInterval = c.probeInterval
